@@ -36,9 +36,19 @@ package strategy
 //@   modifies ghost_dirty, ghost_nput, ghost_ndel, ghost_itCount, ghost_mergeTouched
 //@   loop 0 invariant dirty_only_set: ghost_dirty == old(ghost_dirty) || ghost_dirty == 1
 //@   loop 0 invariant clean_if_nothing_wins: ghost_mergeTouched == 0 ==> ghost_nput == old(ghost_nput) && ghost_ndel == old(ghost_ndel) && ghost_dirty == old(ghost_dirty)
-//@   at_call lmdb.(*Txn).Get#0 assert looks_up_delivered_key: sameSlice(arg2, key)
-//@   at_call strategy.Iterator.Merge#0 assert merges_stored_value: sameSlice(arg1, dbv)
-//@   at_call strategy.setNewVal#0 assert writes_merge_result: sameSlice(arg2, key) && sameSlice(arg3, dbv) && sameSlice(arg4, val)
+//@   after_call strategy.Iterator.Next#0 ghost loc_kArr := arrayOf(ret0)
+//@   after_call strategy.Iterator.Next#0 ghost loc_kOff := offsetOf(ret0)
+//@   after_call strategy.Iterator.Next#0 ghost loc_kLen := len(ret0)
+//@   after_call lmdb.(*Txn).Get#0 ghost loc_dArr := arrayOf(ret0)
+//@   after_call lmdb.(*Txn).Get#0 ghost loc_dOff := offsetOf(ret0)
+//@   after_call lmdb.(*Txn).Get#0 ghost loc_dLen := len(ret0)
+//@   after_call strategy.Iterator.Merge#0 ghost loc_vArr := arrayOf(ret0)
+//@   after_call strategy.Iterator.Merge#0 ghost loc_vOff := offsetOf(ret0)
+//@   after_call strategy.Iterator.Merge#0 ghost loc_vLen := len(ret0)
+//@   let isDeliveredKey = arrayOf(arg2) == ghost_loc_kArr && offsetOf(arg2) == ghost_loc_kOff && uint64(len(arg2)) == ghost_loc_kLen
+//@   at_call lmdb.(*Txn).Get#0 assert looks_up_delivered_key: isDeliveredKey && arg1 == dbi
+//@   at_call strategy.Iterator.Merge#0 assert merges_stored_value: arrayOf(arg1) == ghost_loc_dArr && offsetOf(arg1) == ghost_loc_dOff && uint64(len(arg1)) == ghost_loc_dLen
+//@   at_call strategy.setNewVal#0 assert writes_merge_result: isDeliveredKey && arg1 == dbi && arrayOf(arg3) == ghost_loc_dArr && offsetOf(arg3) == ghost_loc_dOff && uint64(len(arg3)) == ghost_loc_dLen && arrayOf(arg4) == ghost_loc_vArr && offsetOf(arg4) == ghost_loc_vOff && uint64(len(arg4)) == ghost_loc_vLen
 //@   ensures dirty_only_set: ghost_dirty == old(ghost_dirty) || ghost_dirty == 1
 //@   ensures clean_if_nothing_wins: ghost_mergeTouched == 0 ==> ghost_nput == old(ghost_nput) && ghost_ndel == old(ghost_ndel) && ghost_dirty == old(ghost_dirty)
 
